@@ -146,6 +146,11 @@ theorem T_c10_gate_translated (mode : Mode) (nm : Names) (ok : NamesOK nm) (f : 
       (b = true ↔ f.ret = Ty.prim boolId) :=
   ⟨_, T_sig_returns_bool mode _ hs, returnsBoolText_renderFn nm ok f⟩
 
+/-- sanity (tests, not the theorem): the spec on three literal texts -/
+example : returnsBoolText ['f', 'n', '(', 'i', '3', '2', ')', ' ', '-', '>', ' ', 'b', 'o', 'o', 'l'] = true := by decide
+example : returnsBoolText ['f', 'n', '(', ')', ' ', '-', '>', ' ', 'f', 'n', '(', ')', ' ', '-', '>', ' ', 'b', 'o', 'o', 'l'] = false := by decide
+example : returnsBoolText ['f', 'n', '(', 'f', 'n', '(', ')', ' ', '-', '>', ' ', 'b', 'o', 'o', 'l', ')'] = false := by decide
+
 end Inj.Tie
 
 #print axioms Inj.Tie.T_sig_returns_bool
